@@ -46,6 +46,8 @@ type c09Pod struct {
 	limEq     bool // limits == requests on every container
 	hasAnno   bool
 	numa      []int32
+	hasOvh    bool     // spec.overhead declared (sandboxed RuntimeClass)
+	ovh       [2]int64 // cpu milli, memory bytes; -1 = the key is absent from spec.overhead
 }
 
 type c09Met struct {
@@ -190,6 +192,9 @@ func c09Build(s *c09Scn) (*configuration.ColocationStrategy, *corev1.Node, *core
 			}
 			pod.Spec.Containers = append(pod.Spec.Containers, ctr)
 		}
+		if p.hasOvh {
+			pod.Spec.Overhead = c09RL(p.ovh[0], p.ovh[1], false)
+		}
 		if p.hasAnno {
 			rs := extension.ResourceStatus{}
 			for _, id := range p.numa {
@@ -241,11 +246,17 @@ func c09Build(s *c09Scn) (*configuration.ColocationStrategy, *corev1.Node, *core
 
 // ---------- integer projection (ops) ----------
 
+// req is the pod's request read from the DECLARED pod object, independently of util.GetPodRequest: the sum of the
+// containers' requests (no init containers are generated) plus spec.overhead.
 func (p *c09Pod) req() (int64, int64) {
 	var c, m int64
 	for _, x := range p.ctrs {
 		c += c09P0(x[0])
 		m += c09P0(x[1])
+	}
+	if p.hasOvh {
+		c += c09P0(p.ovh[0])
+		m += c09P0(p.ovh[1])
 	}
 	return c, m
 }
@@ -877,6 +888,16 @@ func c09Gen(r *vRand) *c09Scn {
 				p.ctrs[0][0] = 1 + r.Int63n(cpuHi/6)
 			}
 		}
+		if r.Chance(1, 3) { // spec.overhead: both dimensions, or only one
+			p.hasOvh = true
+			p.ovh = [2]int64{1 + r.Int63n(cpuHi/16), 1 + r.Int63n(memHi/16)}
+			switch r.Intn(4) {
+			case 0:
+				p.ovh[0] = -1
+			case 1:
+				p.ovh[1] = -1
+			}
+		}
 		if r.Chance(2, 5) {
 			p.hasAnno = true
 			zn := len(s.zones)
@@ -968,6 +989,15 @@ func c09Bump(r *vRand, s *c09Scn) string {
 				p := &s.pods[r.Intn(len(s.pods))]
 				c := &p.ctrs[r.Intn(len(p.ctrs))]
 				k := r.Intn(2)
+				if p.hasOvh && r.Bool() { // raise the declared overhead instead of a container
+					if p.ovh[k] < 0 {
+						k = 1 - k
+					}
+					if p.ovh[k] >= 0 {
+						p.ovh[k] = amt(p.ovh[k])
+						return "pod-overhead"
+					}
+				}
 				if !p.kubeSet && p.kube == 2 {
 					break // keep the pod best-effort (its class is derived from the container form)
 				}
@@ -1103,7 +1133,7 @@ func TestVerifC09(t *testing.T) {
 		h.End()
 	}
 	h.Close("one generated scenario (strategy: thresholds 0-130, 3 policies + nil/unknown, optional pct caps; node capacity/allocatable/" +
-		"reservation annotation incl. reservedCPUs and garbage, applyPolicy absent / empty / Default / ReservedCPUsOnly / unknown; 0-6 pods with priority by label/value/QoS/kube-QoS, all phases, 1-2 containers, " +
+		"reservation annotation incl. reservedCPUs and garbage, applyPolicy absent / empty / Default / ReservedCPUsOnly / unknown; 0-6 pods with priority by label/value/QoS/kube-QoS, all phases, 1-2 containers, spec.overhead on a third of the pods (cpu and/or memory), " +
 		"NUMA annotation; pod metrics incl. dangling and duplicate keys; host applications; fresh/stale/missing update time; NRT absent or 0-4 zones) " +
 		"followed by the same scenario with one consumption input raised; non-trivial = not degraded, >=1 active HP pod and a positive published amount; distinct by op lines")
 }
